@@ -234,6 +234,7 @@ func (S) RunTape(t *sim.Tape, st *sim.Stats, keepLog bool) *sim.Outcome {
 	esc := t.Choice(3, "cfg.esc")
 	shard := t.Choice(3, "cfg.shard")
 	d.SplitWrites = t.Bool("cfg.splitwrites")
+	d.NoReplaceRename = t.Pct(15, "cfg.rename_noreplace")
 	d.RandCollide = []int{0, 0, 25}[t.Choice(3, "cfg.randcollide")]
 	predir := t.Pct(20, "cfg.predir") // pre-create a shard directory (other arm of move/haveDir)
 	s.MaxQ = []int{0, 2, 8}[t.Choice(3, "cfg.maxq")]
@@ -690,7 +691,9 @@ func (w *world) recover(esc, shard, mode int) {
 			continue
 		}
 		b, err := st2.Get(ctx, key)
-		if err != nil || !bytes.Equal(b, w.cont[i]) {
+		// complete = the content just put or, where the store keeps what exists (a rename that does not
+		// replace), the other complete content that was committed for this key before
+		if err != nil || !(bytes.Equal(b, w.cont[i]) || (w.d.NoReplaceRename && w.complete(i, b))) {
 			o.Fail("restart-unusable", "Get after re-Put", "re-Put(%q) does not read back complete: err=%v", key, err)
 		}
 	}
